@@ -3,11 +3,13 @@ package main
 import (
 	"fmt"
 
-	"circlsim/refmodel/asconref"
-	"circlsim/refmodel/h2c"
+	"circlsim/codec"
 )
 
 func main() {
-	fmt.Println(h2c.Selftest("/verif/fixtures/rfc9380"))
-	fmt.Println(asconref.Selftest("/verif/fixtures/ascon"))
+	all, un := codec.UncoveredCandidates("/repo")
+	fmt.Println(len(all), len(un))
+	for _, u := range un {
+		fmt.Println("  ", u)
+	}
 }
